@@ -28,12 +28,12 @@ bijections (coupling for any mask, autoregressive in `n` passes, composite in re
 Householder sequences).  Finiteness in floating point is NOT a theorem (DESIGN §8): it is carried by executing
 the same definitions in `Float` against the code.
 
-**What no theorem in this namespace covers** (carried by the correspondence and the round-trip oracle only): round trips of
-`Sigmoid` / `Logit` (whose inverse clamps to `[eps, 1-eps]`), `CauchyCDF`, `LogTanh`, `PointwiseAffine`, `ActNorm`, `BatchNorm`,
-permutations, `OneByOneConvolution`, `GatedLinearUnit`; the scalar round trips below are closed-form facts not tied to the
-executed `expT` / `tanhT` / `leakyReluT` (in particular the reading `e (1.0/slope) = 1 / e slope` of the double the code forms);
-the linear family's round trips are in C11, multiscale in C08; `Good` (abstract composite) has one order only.  The
-`…ParamsValid` witnesses use an empty parameter array (every read defaults to 0) and the one-bin configuration.
+**Closed-form vs executed** (external audit): the scalar round trips in THIS file are closed-form facts; the executed ones
+(`expT`, `affineT`, `gluT`, `leakyReluT`, `tanhT`, `sigmoidT` / Logit with the exact region where the clamp is inactive, `cauchyT`,
+`logTanhT`, 1×1 convolution, ActNorm, BatchNorm in evaluation mode, permutations, squeeze) are in `Properties/C02E.lean`.
+**What no theorem in this namespace covers**: the linear family's round trips are in C11, multiscale in C08; `Good` (abstract
+composite) has one order only; UMNN.  The `…ParamsValid` witnesses use an empty parameter array (every read defaults to 0) and
+the one-bin configuration; a default-configuration witness of `RQValid` is `Properties.C09.rq_program_default_configuration`.
 -/
 open DualSound NF
 
